@@ -302,10 +302,51 @@ def r4_2(ctx):
                 v = r.value
                 if isinstance(v, ast.Call) and norm(expand_alias(v.func, ps_aliases)) == f"{stack}.pop" and len(v.args) == 1 and norm(v.args[0]) == lp.target.id:
                     ok = True
-    ctx.check(ok, ps.fq, f"for ... in {detail}", ps.where, "by-name close searches from the top of the stack and pops that entry",
+    verdict = "ok" if ok else None
+    if not ok and not loops:
+        # search through a list of the open names:  names = [t.name for _, t in reversed(stack)];  pop(-1 - names.index(name))
+        from ..astutil import single_defs as _sdf42
+        sd42 = _sdf42(ps.node)
+        for r in [r for r in walk_local(ps.node) if isinstance(r, ast.Return) and isinstance(r.value, ast.Call)]:
+            v = r.value
+            if norm(expand_alias(v.func, ps_aliases)) != f"{stack}.pop" or len(v.args) != 1:
+                continue
+            a = v.args[0]
+            idxc = [c for c in ast.walk(a) if isinstance(c, ast.Call) and isinstance(c.func, ast.Attribute) and c.func.attr == "index" and isinstance(c.func.value, ast.Name)]
+            if len(idxc) != 1:
+                continue
+            lst = sd42.get(idxc[0].func.value.id)
+            ix = norm(idxc[0])
+            detail = norm(a)
+            if isinstance(lst, ast.ListComp) and len(lst.generators) == 1:
+                src_ = lst.generators[0].iter
+                rev = isinstance(src_, ast.Call) and call_name(src_) == "reversed" and norm(src_.args[0]) == stack
+                fwd = norm(src_) == stack
+                if rev and norm(a).replace(" ", "") in (f"-1-{ix}".replace(" ", ""), f"-({ix}+1)".replace(" ", ""), f"~{ix}".replace(" ", ""), f"-{ix}-1".replace(" ", "")):
+                    verdict = "ok"
+                elif fwd and norm(a) == ix:
+                    verdict = "oldest"
+    if verdict is None and loops:
+        fwd_loop = any(isinstance(lp.iter, ast.Call) and call_name(lp.iter) == "enumerate" and lp.iter.args and norm(lp.iter.args[0]) == stack for lp in loops) or any(norm(lp.iter) == stack for lp in loops)
+        verdict = "oldest" if fwd_loop else None
+    if verdict is None:
+        raise AnalysisError(f"{ps.fq}: the by-name close (`{detail}`) is written in a form this rule does not read; whether it closes the most recent open tag of that name is not decided")
+    ctx.check(verdict == "ok", ps.fq, f"for ... in {detail}", ps.where, "by-name close searches from the top of the stack and pops that entry",
               f"{ps.name} iterates `{detail}`: an explicit closing tag must close the MOST RECENT open tag of that name (scan from the top of the stack and pop that entry)")
     last = ps.node.body[-1]
-    ctx.check(isinstance(last, ast.Raise) and "KeyError" in norm(last), ps.fq, norm(last), ps.where, "no match -> KeyError (converted by the caller)", "pop_style does not raise KeyError when no open tag matches")
+    raises_key = any(isinstance(x, ast.Raise) and x.exc is not None and "KeyError" in norm(x.exc) for x in walk_local(ps.node))
+    if isinstance(last, ast.Raise) and "KeyError" in norm(last):
+        ctx.ok(ps.where, "no match -> KeyError (converted by the caller)", ps.fq)
+    elif raises_key:
+        # raised by a guard in front of the pop (`if name not in names: raise KeyError(name)`): the pop that follows must be reached
+        # only when a match exists - the guard tests membership in the very list that is searched
+        guard_ok = any(isinstance(x, ast.If) and isinstance(x.test, ast.Compare) and len(x.test.ops) == 1 and isinstance(x.test.ops[0], ast.NotIn) and x.body and isinstance(x.body[-1], ast.Raise) and "KeyError" in norm(x.body[-1]) for x in walk_local(ps.node))
+        if guard_ok:
+            ctx.ok(ps.where, "no match -> KeyError raised by the membership guard in front of the pop", ps.fq)
+        else:
+            raise AnalysisError(f"{ps.fq}: KeyError is raised, but not as the last statement nor by a `not in` guard; not decided")
+    else:
+        ctx.violation(ps.fq, norm(last), ps.where, "pop_style does not raise KeyError when no open tag matches")
     # name comparison uses the normalised name on both sides
     ctx.check("style_name = normalize(style_name)" in norm(render.node) and "_Tag(normalize(tag.name), tag.parameters)" in norm(render.node), render.fq, "normalize on open and close", render.where,
               "open and close names are normalised the same way", "opening and closing tag names are not normalised the same way: [b]..[/bold] would not match")
